@@ -9,15 +9,19 @@ from vlib import unitmodel as um
 from vlib.harness import Sub
 
 PROPERTY = "C16"
-RULE = ("generated Datasets: a 'mesh' group (position Vector of 1-3 components + Arrays and Vectors), a particle-like "
-        "group with its own positions and another row count, a group without positions of mesh length (falls back to "
+RULE = ("generated Datasets: a 'mesh' group (position Vector of 1-3 components + Arrays and Vectors; absent in 1 case of 6), "
+        "a particle-like group with its own positions and another or the same row count, groups and members inserted in "
+        "a shuffled order in half of the cases, a group without positions of mesh length (falls back to "
         "the mesh positions), a group without positions of another length (ignored), 0-200 rows, meta content; origin "
         "Vector and radius / (dx,dy,dz) as pint Quantity or 0-d Array in independently drawn length units; regions "
-        "containing nothing / everything / rows exactly on the boundary (integer coordinates in one unit) / close to it. "
+        "containing nothing / everything / rows exactly on the boundary (integer coordinates in one unit; for boxes rows planted "
+        "on each of the six faces) / close to it, origins inside the extent of the rows or beyond it on one axis; a third of "
+        "the datasets is extracted from twice, with two regions. "
         "Oracle: membership in cgs from the independent unit model (r < R strict, |offset| <= half inclusive; rows "
         "within 1e-9 relative of the boundary are not judged unless all quantities share one unit and are integers); "
         "the result must hold exactly the groups with >=1 member, each equal to the input group indexed by the mask "
-        "(every variable, unit, name), meta equal, input dataset bit-identical afterwards, no shared buffers.  "
+        "(every variable, unit, name; the order of the kept rows is not judged), meta equal, input dataset bit-identical "
+        "afterwards, no buffers shared with it (a new dataset).  "
         "non-trivial = mask neither all-true nor all-false and positions/origin/size in >=2 different units.")
 ASSUMPTIONS = ["extract_box is generated with 3-component positions only (its signature requires dx, dy, dz)",
                "a group without positions and with a row count different from the mesh is skipped with a warning"]
@@ -38,8 +42,11 @@ def case_st(draw):
     pu = draw(st.sampled_from(LU))
     ou = pu if exact else draw(st.sampled_from(LU))
     su = pu if exact else draw(st.sampled_from(LU))
-    return {"kind": kind, "nvec": nvec, "n_mesh": draw(st.sampled_from([0, 1, 2, 7, 30, 200])),
-            "n_part": draw(st.sampled_from([0, 1, 5, 40])), "seed": draw(st.integers(0, 2 ** 31 - 2)),
+    n_mesh = draw(st.sampled_from([0, 1, 2, 7, 30, 200]))
+    return {"kind": kind, "nvec": nvec, "n_mesh": n_mesh,
+            # (a particle group with as many rows as the mesh still has its own positions)
+            "n_part": draw(st.sampled_from([0, 1, 5, 40, n_mesh, n_mesh])), "seed": draw(st.integers(0, 2 ** 31 - 2)),
+            "with_mesh": draw(st.integers(0, 5)) > 0, "origin_outside": draw(st.integers(0, 3)) == 0, "shuffle": draw(st.booleans()), "second": draw(st.integers(0, 2)) == 0,
             "pu": pu, "ou": ou, "su": su, "part_pu": pu if exact else draw(st.sampled_from(LU)),
             "exact": exact, "region": draw(st.sampled_from(["some", "some", "some", "none", "all", "tiny"])),
             "size_as": draw(st.sampled_from(["Q", "A0"])), "extra_same": draw(st.booleans()),
@@ -83,30 +90,66 @@ def extract(case, r):
         return rng.uniform(-10, 10, size=(n, nvec)) * fpu / f_unit
 
     n_mesh, n_part = case["n_mesh"], case["n_part"]
+    with_mesh = case.get("with_mesh", True)
+    case = dict(case)
+    if not with_mesh:
+        # a dataset without a mesh group: only groups with their own positions can be extracted
+        case.update(with_part=True, extra_same=False, extra_other=False, reparent=None)
+        r.label("dataset_without_mesh")
     pm = positions(n_mesh, fpu)
     pp = positions(n_part, fpp)
-    ds = osyris.Dataset()
-    mesh = osyris.Datagroup()
+    # exact data: origin and size are drawn first, so that rows can be planted on each face / on the sphere
+    if case["exact"]:
+        o = rng.randint(-2, 3, size=nvec).astype(np.float64)
+        size = float(rng.choice([4.0, 8.0] if kind == "box" else [5.0, 3.0, 10.0, 4.0]))   # box: half-sizes are integers
+        if kind == "box":
+            halves = [size * a * 0.5 for a in case["aspect"]]
+            planted = []
+            for ax in range(3):
+                for sgn in (-1.0, 1.0):
+                    p = o.copy()
+                    p[ax] += sgn * halves[ax]
+                    planted.append(p)
+            for arr in (pm, pp):
+                k = min(len(arr), 6)
+                if k:
+                    sel6 = rng.permutation(6)[:k]
+                    arr[:k] = np.array(planted)[sel6]
+    groups = {}
+    mesh = {}
     mesh["position"] = osyris.Vector(*[osyris.Array(values=pm[:, i].copy(), unit=case["pu"]) for i in range(nvec)])
     mesh["density"] = osyris.Array(values=np.arange(n_mesh, dtype=np.float64) + 0.5, unit="g/cm**3")
     mesh["velocity"] = osyris.Vector(*[osyris.Array(values=np.arange(n_mesh, dtype=np.float64) * (i + 2), unit="km/s")
                                        for i in range(nvec)])
     mesh["level"] = osyris.Array(values=np.arange(n_mesh, dtype=np.int64) % 5)
-    ds["mesh"] = mesh
+    if with_mesh:
+        groups["mesh"] = mesh
     if case["with_part"]:
-        part = osyris.Datagroup()
+        part = {}
         part["position"] = osyris.Vector(*[osyris.Array(values=pp[:, i].copy(), unit=case["part_pu"]) for i in range(nvec)])
         part["mass"] = osyris.Array(values=np.arange(n_part, dtype=np.float64) + 100.0, unit="M_sun")
-        ds["part"] = part
+        groups["part"] = part
     if case["extra_same"]:
-        ex = osyris.Datagroup()
+        ex = {}
         ex["temperature"] = osyris.Array(values=np.arange(n_mesh, dtype=np.float32) + 10.0, unit="K")
         ex["B"] = osyris.Vector(*[osyris.Array(values=np.arange(n_mesh, dtype=np.float64) - i, unit="erg") for i in range(nvec)])
-        ds["extra"] = ex
+        groups["extra"] = ex
     if case["extra_other"]:
-        oth = osyris.Datagroup()
-        oth["stuff"] = osyris.Array(values=np.arange(n_mesh + 3, dtype=np.float64), unit="s")
-        ds["other"] = oth
+        groups["other"] = {"stuff": osyris.Array(values=np.arange(n_mesh + 3, dtype=np.float64), unit="s")}
+    ds = osyris.Dataset()
+    gnames = list(groups)
+    if case.get("shuffle"):
+        # neither the mesh nor the position member need come first
+        gnames = [gnames[i] for i in rng.permutation(len(gnames))]
+        r.label("insertion_order_shuffled")
+    for gname in gnames:
+        members = list(groups[gname])
+        if case.get("shuffle"):
+            members = [members[i] for i in rng.permutation(len(members))]
+        dgp = osyris.Datagroup()
+        for k in members:
+            dgp[k] = groups[gname][k]
+        ds[gname] = dgp
     ds.meta.update({"time": 1.5, "ndim": nvec, "note": "x"})
     # the groups of ds may also have been inserted into other datasets (Dataset.copy() re-inserts the same group
     # objects): extraction must still use the positions of the dataset it is given
@@ -127,150 +170,174 @@ def extract(case, r):
 
     # ---- region
     if case["exact"]:
-        o = rng.randint(-2, 3, size=nvec).astype(np.float64)
-        size = float(rng.choice([5.0, 3.0, 10.0, 4.0]))          # radius, or full box width (half = integer or .5)
+        pass                                                     # drawn above
     else:
-        o = rng.uniform(-3, 3, size=nvec) * fpu / fou
+        o = rng.uniform(-3, 3, size=nvec)
+        if case.get("origin_outside"):
+            # the origin beyond the extent of the rows on one axis (a region next to a compact group, or at the rim)
+            ax = int(rng.randint(0, nvec))
+            o[ax] = float(rng.choice([-1.0, 1.0]) * rng.uniform(8.0, 12.0))
+            r.label("origin_outside_extent_on_one_axis")
+        o = o * fpu / fou
         size = {"some": 6.0, "none": 1e-6, "all": 100.0, "tiny": 0.5}[case["region"]] * fpu / fsu
-    origin = osyris.Vector(*[osyris.Array(values=o[i], unit=case["ou"]) for i in range(nvec)])
+    def run_region(o, size):
+        origin = osyris.Vector(*[osyris.Array(values=o[i], unit=case["ou"]) for i in range(nvec)])
 
-    def mk_size(v):
-        if case["size_as"] == "Q":
-            return v * osyris.units(case["su"])
-        return osyris.Array(values=v, unit=case["su"])
-    snap = _snap_ds(ds)
-    with warnings.catch_warnings():
-        warnings.simplefilter("ignore")
-        try:
-            if kind == "sphere":
-                sub = osyris.extract_sphere(ds, radius=mk_size(size), origin=origin)
-            else:
-                sizes = [size * a for a in case["aspect"]]
-                bu = case.get("box_units") or [case["su"]] * 3
+        def mk_size(v):
+            if case["size_as"] == "Q":
+                return v * osyris.units(case["su"])
+            return osyris.Array(values=v, unit=case["su"])
+        snap = _snap_ds(ds)
+        with warnings.catch_warnings():
+            warnings.simplefilter("ignore")
+            try:
+                if kind == "sphere":
+                    sub = osyris.extract_sphere(ds, radius=mk_size(size), origin=origin)
+                else:
+                    sizes = [size * a for a in case["aspect"]]
+                    bu = case.get("box_units") or [case["su"]] * 3
 
-                def mk_box(v, unit):
-                    vv = v * fsu / um.parse(unit)[0]           # the same physical size expressed in this axis' unit
-                    return vv * osyris.units(unit) if case["size_as"] == "Q" else osyris.Array(values=vv, unit=unit)
-                sub = osyris.extract_box(ds, dx=mk_box(sizes[0], bu[0]), dy=mk_box(sizes[1], bu[1]),
-                                         dz=mk_box(sizes[2], bu[2]), origin=origin)
-                if len(set(bu)) > 1:
-                    r.label("box_sizes_in_different_units")
-        except Exception as e:
-            r.bad(["raises", kind, type(e).__name__], f"{e!r}; groups {list(ds.keys())}")
+                    def mk_box(v, unit):
+                        vv = v * fsu / um.parse(unit)[0]           # the same physical size expressed in this axis' unit
+                        return vv * osyris.units(unit) if case["size_as"] == "Q" else osyris.Array(values=vv, unit=unit)
+                    sub = osyris.extract_box(ds, dx=mk_box(sizes[0], bu[0]), dy=mk_box(sizes[1], bu[1]),
+                                             dz=mk_box(sizes[2], bu[2]), origin=origin)
+                    if len(set(bu)) > 1:
+                        r.label("box_sizes_in_different_units")
+            except Exception as e:
+                r.bad(["raises", kind, type(e).__name__], f"{e!r}; groups {list(ds.keys())}")
+                return
+        if _snap_ds(ds) != snap:
+            r.bad(["input-modified", kind], "the input dataset changed")
             return
-    if _snap_ds(ds) != snap:
-        r.bad(["input-modified", kind], "the input dataset changed")
-        return
-    if not isinstance(sub, osyris.Dataset) or sub is ds:
-        r.bad(["result-type"], type(sub).__name__)
-        return
-    if dict(sub.meta) != dict(ds.meta) or sub.meta is ds.meta:
-        r.bad(["meta"], f"{dict(sub.meta)} vs {dict(ds.meta)}")
-        return
+        if not isinstance(sub, osyris.Dataset) or sub is ds:
+            r.bad(["result-type"], type(sub).__name__)
+            return
+        if dict(sub.meta) != dict(ds.meta):
+            r.bad(["meta"], f"{dict(sub.meta)} vs {dict(ds.meta)}")
+            return
 
-    # ---- expected masks (cgs)
-    oc = o * fou
+        # ---- expected masks (cgs)
+        oc = o * fou
 
-    def mask_of(p, f_unit):
-        off = p * f_unit - oc[None, :]
-        if kind == "sphere":
-            rr = np.sqrt(np.sum(off ** 2, axis=1))
-            R = size * fsu
-            inside = rr < R
-            tol = np.abs(rr - R) <= 1e-9 * R
+        def mask_of(p, f_unit):
+            off = p * f_unit - oc[None, :]
+            if kind == "sphere":
+                rr = np.sqrt(np.sum(off ** 2, axis=1))
+                R = size * fsu
+                inside = rr < R
+                tol = np.abs(rr - R) <= 1e-9 * R
+                if case["exact"]:
+                    tol[:] = False        # integer data in one unit: no rounding, r == R is outside
+                return inside, tol
+            half = np.array([size * a * fsu * 0.5 for a in case["aspect"]])
+            inside = np.all(np.abs(off) <= half[None, :], axis=1)
+            tol = np.any(np.abs(np.abs(off) - half[None, :]) <= 1e-9 * half[None, :], axis=1)
             if case["exact"]:
-                tol[:] = False        # integer data in one unit: no rounding, r == R is outside
+                tol[:] = False
             return inside, tol
-        half = np.array([size * a * fsu * 0.5 for a in case["aspect"]])
-        inside = np.all(np.abs(off) <= half[None, :], axis=1)
-        tol = np.any(np.abs(np.abs(off) - half[None, :]) <= 1e-9 * half[None, :], axis=1)
-        if case["exact"]:
-            tol[:] = False
-        return inside, tol
 
-    m_mesh, t_mesh = mask_of(pm, fpu)
-    expect = {"mesh": (m_mesh, t_mesh)}
-    if case["with_part"]:
-        expect["part"] = mask_of(pp, fpp)
-    if case["extra_same"]:
-        expect["extra"] = (m_mesh, t_mesh)
-    mixed_units = len({case["pu"], case["ou"], case["su"]}) >= 2
-    partial = any(0 < m.sum() < len(m) for m, _ in expect.values())
-    r.nontrivial(partial and mixed_units)
-    r.label("kind_" + kind, "region_" + case["region"], f"nvec_{nvec}")
-    if case["exact"]:
-        r.label("exact_boundary_data")
-        on_b = False
+        m_mesh, t_mesh = mask_of(pm, fpu)
+        expect = {"mesh": (m_mesh, t_mesh)} if with_mesh else {}
+        if case["with_part"]:
+            expect["part"] = mask_of(pp, fpp)
+        if case["extra_same"]:
+            expect["extra"] = (m_mesh, t_mesh)
+        mixed_units = len({case["pu"], case["ou"], case["su"]}) >= 2
+        partial = any(0 < m.sum() < len(m) for m, _ in expect.values())
+        r.nontrivial(partial and mixed_units)
+        r.label("kind_" + kind, "region_" + case["region"], f"nvec_{nvec}")
+        if case["exact"]:
+            r.label("exact_boundary_data")
+            on_b = False
+            for g, (m, t) in expect.items():
+                p = pm if g != "part" else pp
+                off = p - o[None, :]
+                if kind == "sphere":
+                    on_b |= bool(np.any(np.sum(off ** 2, axis=1) == size ** 2))
+                else:
+                    hv = np.array([size * a * 0.5 for a in case["aspect"]])
+                    for ax in range(3):
+                        others = [a2 for a2 in range(3) if a2 != ax]
+                        within = np.all(np.abs(off[:, others]) <= hv[None, others], axis=1)
+                        for sgn, nm in ((-1.0, "lo"), (1.0, "hi")):
+                            if np.any(within & (off[:, ax] == sgn * hv[ax])):
+                                # a row on this face and inside on the other two axes: it decides this comparison
+                                on_b = True
+                                r.label(f"face_{'xyz'[ax]}_{nm}")
+            if on_b:
+                r.label("row_exactly_on_boundary")
+        if "other" in sub.keys():
+            r.bad(["group-without-positions-kept"], "group of another length without positions is in the result")
+            return
+        in_bufs = _buffers(ds)
         for g, (m, t) in expect.items():
-            p = pm if g != "part" else pp
-            off = p - o[None, :]
-            if kind == "sphere":
-                on_b |= bool(np.any(np.sum(off ** 2, axis=1) == size ** 2))
-            else:
-                on_b |= bool(np.any(np.abs(off) == np.array([size * a * 0.5 for a in case["aspect"]])[None, :]))
-        if on_b:
-            r.label("row_exactly_on_boundary")
-    if "other" in sub.keys():
-        r.bad(["group-without-positions-kept"], "group of another length without positions is in the result")
-        return
-    in_bufs = _buffers(ds)
-    for g, (m, t) in expect.items():
-        if t.any():
-            r.label("tolerant_rows")
-        lo, hi = m & ~t, m | t
-        if g not in sub.keys():
-            if lo.any():
-                r.bad(["group-missing", g, kind], f"group {g} absent but {int(lo.sum())} rows are inside")
-                return
-            continue
-        if not hi.any():
-            r.bad(["empty-group-kept", g], f"group {g} present but no row is inside")
-            return
-        sg = sub[g]
-        if list(sg.keys()) != list(ds[g].keys()):
-            r.bad(["members", g], f"{list(sg.keys())} vs {list(ds[g].keys())}")
-            return
-        # identify which rows were selected via a member that encodes the row index
-        key = {"mesh": "density", "part": "mass", "extra": "temperature"}[g]
-        base = {"mesh": 0.5, "part": 100.0, "extra": 10.0}[g]
-        rows = np.round(np.asarray(sg[key].values, dtype=np.float64) - base).astype(int)
-        got = np.zeros(len(m), dtype=bool)
-        if len(rows) != len(set(rows.tolist())) or np.any(rows < 0) or np.any(rows >= len(m)):
-            r.bad(["rows-duplicated-or-invented", g], f"row ids {rows.tolist()[:10]}")
-            return
-        got[rows] = True
-        wrong = (got & ~hi) | (~got & lo)
-        if wrong.any():
-            i = int(np.argmax(wrong))
-            kindw = "row-outside-kept" if got[i] else "row-inside-dropped"
-            exact_b = case["exact"]
-            r.bad([kindw, kind, "exact-boundary" if exact_b and not (lo[i] or not hi[i]) else "interior"],
-                  f"group {g} row {i}: kept={bool(got[i])} expected inside={bool(m[i])}; units pos={case['pu']} "
-                  f"origin={case['ou']} size={case['su']} size={size!r}")
-            return
-        sel = np.sort(rows)
-        if not np.array_equal(rows, sel):
-            r.bad(["row-order-changed", g], "selected rows are not in the original order")
-            return
-        for k in ds[g].keys():
-            src, dst = ds[g][k], sg[k]
-            sa = list(src._xyz.values()) if isinstance(src, osyris.Vector) else [src]
-            da = list(dst._xyz.values()) if isinstance(dst, osyris.Vector) else [dst]
-            if type(src) is not type(dst) or len(sa) != len(da):
-                r.bad(["member-type", g, k], f"{type(dst).__name__}")
-                return
-            for a, b in zip(sa, da):
-                if b.unit != a.unit or b.dtype != a.dtype or not np.array_equal(np.asarray(b.values), np.asarray(a.values)[rows]):
-                    r.bad(["member-misaligned", g, k], f"member {k} of group {g} is not the input indexed by the mask")
+            if t.any():
+                r.label("tolerant_rows")
+            lo, hi = m & ~t, m | t
+            if g not in sub.keys():
+                if lo.any():
+                    r.bad(["group-missing", g, kind], f"group {g} absent but {int(lo.sum())} rows are inside")
                     return
-                if any(np.shares_memory(b._array, ib) for ib in in_bufs):
-                    r.bad(["shares-buffer", g, k], "result shares memory with the input dataset")
-                    return
-            if dst.name != k:
-                r.bad(["member-name", g, k], f"{dst.name!r}")
+                continue
+            if not hi.any():
+                r.bad(["empty-group-kept", g], f"group {g} present but no row is inside")
                 return
+            sg = sub[g]
+            if list(sg.keys()) != list(ds[g].keys()):
+                r.bad(["members", g], f"{list(sg.keys())} vs {list(ds[g].keys())}")
+                return
+            # identify which rows were selected via a member that encodes the row index
+            key = {"mesh": "density", "part": "mass", "extra": "temperature"}[g]
+            base = {"mesh": 0.5, "part": 100.0, "extra": 10.0}[g]
+            rows = np.round(np.asarray(sg[key].values, dtype=np.float64) - base).astype(int)
+            got = np.zeros(len(m), dtype=bool)
+            if len(rows) != len(set(rows.tolist())) or np.any(rows < 0) or np.any(rows >= len(m)):
+                r.bad(["rows-duplicated-or-invented", g], f"row ids {rows.tolist()[:10]}")
+                return
+            got[rows] = True
+            wrong = (got & ~hi) | (~got & lo)
+            if wrong.any():
+                i = int(np.argmax(wrong))
+                kindw = "row-outside-kept" if got[i] else "row-inside-dropped"
+                exact_b = case["exact"]
+                r.bad([kindw, kind, "exact-boundary" if exact_b and not (lo[i] or not hi[i]) else "interior"],
+                      f"group {g} row {i}: kept={bool(got[i])} expected inside={bool(m[i])}; units pos={case['pu']} "
+                      f"origin={case['ou']} size={case['su']} size={size!r}")
+                return
+            for k in ds[g].keys():
+                src, dst = ds[g][k], sg[k]
+                sa = list(src._xyz.values()) if isinstance(src, osyris.Vector) else [src]
+                da = list(dst._xyz.values()) if isinstance(dst, osyris.Vector) else [dst]
+                if type(src) is not type(dst) or len(sa) != len(da):
+                    r.bad(["member-type", g, k], f"{type(dst).__name__}")
+                    return
+                for a, b in zip(sa, da):
+                    if b.unit != a.unit or b.dtype != a.dtype or not np.array_equal(np.asarray(b.values), np.asarray(a.values)[rows]):
+                        r.bad(["member-misaligned", g, k], f"member {k} of group {g} is not the input indexed by the mask")
+                        return
+                    if any(np.shares_memory(b._array, ib) for ib in in_bufs):
+                        r.bad(["shares-buffer", g, k], "result shares memory with the input dataset")
+                        return
+                if dst.name != k:
+                    r.bad(["member-name", g, k], f"{dst.name!r}")
+                    return
+
+    run_region(o, size)
+    if case.get("second") and not r.records:
+        # a second extraction from the same dataset, with another region
+        r.label("second_extraction")
+        if case["exact"]:
+            o2 = o + 1.0
+            size2 = size + 2.0
+        else:
+            o2 = -o * 0.7
+            size2 = size * 1.7
+        run_region(o2, size2)
 
 
 def subs(ctx):
     return [Sub("extract", extract, strategy=case_st(), quick=500, thorough=4000,
-                required={"kind_box": 0.2, "kind_sphere": 0.4, "row_exactly_on_boundary": 0.05})]
+                required={"kind_box": 0.2, "kind_sphere": 0.4, "row_exactly_on_boundary": 0.05, "dataset_without_mesh": 0.08,
+                          "second_extraction": 0.2, "origin_outside_extent_on_one_axis": 0.1, "face_x_lo": 0.01, "face_x_hi": 0.01, "face_y_lo": 0.01, "face_y_hi": 0.01,
+                          "face_z_lo": 0.01, "face_z_hi": 0.01})]
